@@ -28,6 +28,27 @@ SHORT = {
  'C18-1': 'knn_filter radius mask always uses the L2 norm', 'C18-2': 'knn via cdist (float cancellation far from the origin, N>25)',
  'C19-1': 'svdstf R = U V M (wrong for reflections; affects ape(align))', 'C19-2': 'bspline samples at m/k instead of m*interval',
  'C20-1': 'reset() no longer restores `last`', 'C20-2': 'StopOnPlateau stops only when reject_count >= reject',
+ # second round (agents told what the first round had produced and asked for something different)
+ 'C01-3': 'rxso3_Ws: coefficient of I stays 0 for |σ|<=eps, θ>eps (mask slip; sim3 translation loses 1·τ)',
+ 'C01-4': 'so3_Exp small-angle branch widened to θ<=1e-2 with the θ⁴ terms dropped (1e5 eps norm error in float64)',
+ 'C02-3': 'generic Log branch atan(|v|/w) -> atan2(|v|, w) (angle in (π,2π) for w<0)',
+ 'C02-4': 'RxSO3_Inv clamps the scale at 1e-3 (Inv wrong for small scales)',
+ 'C04-3': 'Mul.backward consults needs_input_grad; Sim3 right operand tests index 0 (no gradient when only Y requires grad)',
+ 'C04-4': 'Mul.backward returns grad_output unsliced for the left operand (padding slot leaks the ignored cotangent slot)',
+ 'C05-3': 'SO3 Adj fast path for one rotation x batch of vectors computes R^T a (no-grad, broadcast shape only)',
+ 'C05-4': 'SE3 Jinvp caches the inverse Jacobian on the pose object (stale after in-place update)',
+ 'C07-3': 'Adaptive strategy stores its damping bounds as min/max group defaults, overriding LM(min=, max=) clamps',
+ 'C07-4': 'LM skips the trial when |J^T R|^2 < eps (absolute test; small-scale problems never move)',
+ 'C10-3': 'Cholesky assert any(info==0) instead of not any(info!=0) (mixed PD / non-PD batches return garbage)',
+ 'C10-4': 'CG returns the initial guess instead of b when b == 0',
+ 'C11-3': 'mat2SO3(check=True) tests unit rows + det instead of R R^T = I (sheared matrices accepted)',
+ 'C11-4': 'euler() multiplies the quaternion by sign(w) (NaN for exact half turns, w == 0)',
+ 'C13-3': 'PF covariance as E[xx^T] - x x^T (float cancellation far from the origin)',
+ 'C13-4': 'UKF `k = k or 3-n` (explicit k=0 replaced; negative centre weight for n>=4)',
+ 'C16-3': 'gravity=None default with `gravity or 9.81007` (gravity=0 silently replaced)',
+ 'C16-4': 'single-frame fast path removes gravity with the initial instead of the integrated rotation',
+ 'C19-3': 'timestamp association by searchsorted: first stamp inside the window instead of the nearest',
+ 'C19-4': 'geodesic_loss closed form whose small-angle branch drops the factor 2',
 }
 rows = ['| change | what it does | run against | quick check |', '|---|---|---|---|']
 names = sorted(d for d in os.listdir(os.path.join(V, 'seeded')) if os.path.isdir(os.path.join(V, 'seeded', d)))
